@@ -58,12 +58,10 @@ func (p *PubSub) handleNewStream(s network.Stream) {
 	sentNewStream := false
 
 	defer func() {
-		p.inboundStreamsMx.Lock()
-		if p.inboundStreams[peer].s == s {
-			delete(p.inboundStreams, peer)
-		}
-		p.inboundStreamsMx.Unlock()
-
+		// Report the closed stream before giving up the registration: a stream that replaces
+		// this one must find it registered (and wait for done) until the report is queued,
+		// otherwise its NewStream event and first RPCs could overtake the report, which then
+		// wipes what the peer has just announced on the new stream.
 		verifYield(verifInboundExit)
 		if sentNewStream {
 			select {
@@ -71,6 +69,12 @@ func (p *PubSub) handleNewStream(s network.Stream) {
 			case <-p.ctx.Done():
 			}
 		}
+
+		p.inboundStreamsMx.Lock()
+		if p.inboundStreams[peer].s == s {
+			delete(p.inboundStreams, peer)
+		}
+		p.inboundStreamsMx.Unlock()
 
 		close(done)
 	}()
